@@ -7,6 +7,7 @@ use super::PropResult;
 use crate::core::*;
 use crate::model::calendar as cal;
 use crate::model::instant::*;
+use super::diff::*;
 use astrolabe::errors::AstrolabeError;
 use astrolabe::{Date, DateTime, DateUtilities, Offset, OffsetUtilities, Time, TimeUtilities};
 use serde_json::{json, Value};
@@ -22,6 +23,43 @@ fn stated_range(msg: &str) -> Option<(String, i128, i128)> {
     let a: i128 = it.next()?.trim().parse().ok()?;
     let b: i128 = it.next()?.trim().parse().ok()?;
     Some((name, a, b))
+}
+
+/// Differential value checks (see props/diff.rs): 1 = reads like the independently built expected value,
+/// 0 = differs, −1 = no trustworthy expected value here (skipped).
+type Cmp = (i8, String);
+
+fn cmp_dt(x: &DateTime, want: i128, off: i32) -> Cmp {
+    match diff_with_expected(x, want, off) {
+        Ok(Diff::Same) => (1, String::new()),
+        Ok(Diff::Skip) => (-1, String::new()),
+        Ok(Diff::Differs(g, e)) => (0, format!("result reads {} but the value that should have been built reads {}", g.to_json(), e.to_json())),
+        Err(p) => (0, format!("result unreadable: {}", p.msg)),
+    }
+}
+
+fn cmp_date(x: &Date, day: i64) -> Cmp {
+    match diff_date(x, day) {
+        Ok(DateDiff::Same) => (1, String::new()),
+        Ok(DateDiff::Skip) => (-1, String::new()),
+        Ok(DateDiff::Differs(g, e)) => (0, format!("result reads {} but the value that should have been built reads {}", g, e)),
+        Err(p) => (0, format!("result unreadable: {}", p.msg)),
+    }
+}
+
+fn cmp_time(x: &Time, n: u64, off: i32) -> Cmp {
+    match diff_time(x, n, off) {
+        Ok(TDiff::Same) => (1, String::new()),
+        Ok(TDiff::Skip) => (-1, String::new()),
+        Ok(TDiff::Differs(g, e)) => (0, format!("result reads {:?} but the value that should have been built reads {:?}", g, e)),
+        Err(p) => (0, format!("result unreadable: {}", p.msg)),
+    }
+}
+
+fn note_skip<E>(rec: &mut Rec, r: &Result<Result<Cmp, E>, Panic>) {
+    if let Ok(Ok((-1, _))) = r {
+        rec.bin(SKIP_EXPECTED);
+    }
 }
 
 enum Verdict {
@@ -192,13 +230,15 @@ fn judge_from_ymd(rec: &mut Rec, y: i64, m: u32, d: u32, on_dt: bool, hms: Optio
     let expect = day.is_some() && time_ok;
     rec.bin(if expect { "ctor/valid" } else { "ctor/invalid" });
     rec.nontrivial(hash_i128s(&[y as i128, m as i128, d as i128, h as i128, mi as i128, s as i128, on_dt as i128]));
-    let want_ts = day.map(|n| (n - cal::DAYS_TO_1970) * 86_400 + (h as i64 * 3600 + mi as i64 * 60 + s as i64));
+    let want_day = day.unwrap_or(0);
+    let want_i = want_day as i128 * D + (h as i128 * 3600 + mi as i128 * 60 + s as i128) * NS;
     let r = trap(|| match (on_dt, hms) {
-        (false, _) => Date::from_ymd(y as i32, m, d).map(|x| x.timestamp()),
-        (true, None) => DateTime::from_ymd(y as i32, m, d).map(|x| x.timestamp()),
-        (true, Some(_)) => DateTime::from_ymdhms(y as i32, m, d, h, mi, s).map(|x| x.timestamp()),
+        (false, _) => Date::from_ymd(y as i32, m, d).map(|x| cmp_date(&x, want_day)),
+        (true, None) => DateTime::from_ymd(y as i32, m, d).map(|x| cmp_dt(&x, want_i, 0)),
+        (true, Some(_)) => DateTime::from_ymdhms(y as i32, m, d, h, mi, s).map(|x| cmp_dt(&x, want_i, 0)),
     });
-    let v = judge_result(r, expect, |ts| Some(*ts) == want_ts, |name, a, b| {
+    note_skip(rec, &r);
+    let v = judge_result(r, expect, |c| c.0 != 0, |name, a, b| {
         date_range_check(name, a, b, y, m as i64, d as i64, None)?;
         time_range_check(name, a, b, h, mi, s)
     });
@@ -221,11 +261,12 @@ fn judge_from_hms(rec: &mut Rec, h: u32, mi: u32, s: u32, kind: u8) {
     rec.nontrivial(hash_i128s(&[h as i128, mi as i128, s as i128, 50 + kind as i128]));
     let secs = h as i64 * 3600 + mi as i64 * 60 + s as i64;
     let r = trap(|| match kind {
-        0 => Time::from_hms(h, mi, s).map(|t| t.as_nanos() as i128),
-        1 => DateTime::from_hms(h, mi, s).map(|t| read(&t)),
-        _ => Offset::from_hms(h.min(i32::MAX as u32) as i32, mi, s).map(|o| o.resolve() as i128 * NS),
+        0 => Time::from_hms(h, mi, s).map(|t| cmp_time(&t, (secs as i128 * NS).clamp(0, DN as i128 - 1) as u64, 0)),
+        1 => DateTime::from_hms(h, mi, s).map(|t| cmp_dt(&t, secs as i128 * NS, 0)),
+        _ => Offset::from_hms(h.min(i32::MAX as u32) as i32, mi, s).map(|o| ((o.resolve() as i128 * NS == secs as i128 * NS) as i8, format!("resolves to {}", o.resolve()))),
     });
-    let v = judge_result(r, expect, |n| *n == secs as i128 * NS, |name, a, b| time_range_check(name, a, b, h, mi, s));
+    note_skip(rec, &r);
+    let v = judge_result(r, expect, |c| c.0 != 0, |name, a, b| time_range_check(name, a, b, h, mi, s));
     report(rec, api, format!("{}({}, {}, {})", api, h, mi, s), v);
 }
 
@@ -239,21 +280,23 @@ fn judge_scalar(rec: &mut Rec, kind: u8, x: i128) {
     rec.api(api);
     rec.bin(if expect { "ctor/valid" } else { "ctor/invalid" });
     rec.nontrivial(hash_i128s(&[x, 60 + kind as i128]));
-    let r = trap(|| match kind {
-        0 => Time::from_seconds(x as u32).map(|t| t.as_nanos() as i128),
-        1 => Time::from_nanos(x as u64).map(|t| t.as_nanos() as i128),
-        _ => Offset::from_seconds(x as i32).map(|o| o.resolve() as i128),
-    });
     let want = match kind {
         0 => x * NS,
         _ => x,
     };
+    let wn = want.clamp(0, DN as i128 - 1) as u64;
+    let r = trap(|| match kind {
+        0 => Time::from_seconds(x as u32).map(|t| cmp_time(&t, wn, 0)),
+        1 => Time::from_nanos(x as u64).map(|t| cmp_time(&t, wn, 0)),
+        _ => Offset::from_seconds(x as i32).map(|o| ((o.resolve() as i128 == want) as i8, format!("resolves to {}", o.resolve()))),
+    });
+    note_skip(rec, &r);
     let (lo, hi) = match kind {
         0 => (0i128, 86_399i128),
         1 => (0, DN as i128 - 1),
         _ => (-86_399, 86_399),
     };
-    let v = judge_result(r, expect, |n| *n == want, |_name, a, b| {
+    let v = judge_result(r, expect, |c| c.0 != 0, |_name, a, b| {
         if x >= a && x <= b {
             return Err(format!("rejected value {} lies inside the stated range", x));
         }
@@ -282,8 +325,13 @@ fn judge_dt_setter(rec: &mut Rec, i: i128, off: i32, f: usize, v: i64, at_end: b
     rec.nontrivial(hash_i128s(&[i, off as i128, f as i128, v as i128, 70]));
     let fl = fields(local);
     let want = m.map(|l| l - off as i128 * NS).unwrap_or(0);
-    let r = trap(|| apply_dt_setter(&mk_off(i, off), f, v).map(|x| read(&x)));
-    let verdict = judge_result(r, expect, |n| *n == want, |name, a, b| {
+    let Some((start, _)) = sane_value(i, off) else {
+        rec.bin(SKIP_START);
+        return;
+    };
+    let r = trap(|| apply_dt_setter(&start, f, v).map(|x| if expect { cmp_dt(&x, want, off) } else { (1, String::new()) }));
+    note_skip(rec, &r);
+    let verdict = judge_result(r, expect, |c| c.0 != 0, |name, a, b| {
         if f < 4 {
             // the tuple the call tried to build
             let (y, mo, d, doy) = match f {
@@ -319,8 +367,16 @@ fn judge_time_setter(rec: &mut Rec, n: u64, off: i32, f: usize, v: u32) {
     let m = model_set_time_field(tm.local(), f, v).map(|l| tm.from_local(l));
     rec.bin(if m.is_some() { "setter/valid" } else { "setter/invalid" });
     rec.nontrivial(hash_i128s(&[n as i128, off as i128, f as i128, v as i128, 80]));
-    let r = trap(|| super::c08::apply_time_setter(&Time::from_nanos(n).unwrap().set_offset(Offset::Fixed(off)), f, v).map(|t| t.as_nanos()));
-    let verdict = judge_result(r, m.is_some(), |x| Some(*x) == m, |name, a, b| {
+    let Some((start, _)) = sane_time(n, off) else {
+        rec.bin(SKIP_START);
+        return;
+    };
+    let r = trap(|| super::c08::apply_time_setter(&start, f, v).map(|t| match m {
+        Some(e) => cmp_time(&t, e, off),
+        None => (1, String::new()),
+    }));
+    note_skip(rec, &r);
+    let verdict = judge_result(r, m.is_some(), |c| c.0 != 0, |name, a, b| {
         if name != "value" {
             return Ok(());
         }
@@ -346,17 +402,21 @@ fn judge_date_setter(rec: &mut Rec, day: i64, f: usize, v: i64) {
     rec.nontrivial(hash_i128s(&[day as i128, f as i128, v as i128, 90]));
     let fl = fields(local);
     let want = m.map(|l| l.div_euclid(D) as i64).unwrap_or(0);
+    let Some(d) = sane_date(day) else {
+        rec.bin(SKIP_START);
+        return;
+    };
     let r = trap(|| {
-        let d = Date::from_timestamp((day - cal::DAYS_TO_1970) * 86_400);
         match f {
             0 => d.set_year(v as i32),
             1 => d.set_month(v as u32),
             2 => d.set_day(v as u32),
             _ => d.set_day_of_year(v as u32),
         }
-        .map(|x| x.timestamp() / 86_400 + cal::DAYS_TO_1970)
+        .map(|x| if expect { cmp_date(&x, want) } else { (1, String::new()) })
     });
-    let verdict = judge_result(r, expect, |n| *n == want, |name, a, b| {
+    note_skip(rec, &r);
+    let verdict = judge_result(r, expect, |c| c.0 != 0, |name, a, b| {
         let (y, mo, d, doy) = match f {
             0 => (v, fl.month as i64, fl.dom as i64, None),
             1 => (fl.year, v, fl.dom as i64, None),
